@@ -1,12 +1,17 @@
 /-
 Model/MeshIntersect.lean — the self-intersection test of TriangularMesh (field_BH_triangularmesh.py), expression by
-expression as numpy / scipy evaluate it:
+expression as numpy / scipy evaluate it (the code AFTER the repair of the edge/corner crossings, the query radius and the
+absolute tolerance):
 
   segments_intersect_facets(segments, facets, eps=1e-6)                      → `segFacet` (one pair), `segmentsIntersectFacets`
-  get_intersecting_triangles(vertices, triangles, r=None, r_factor=1.5, eps=1e-6) → `intersectingFacets`, `getIntersectingTriangles`
+  get_intersecting_triangles(vertices, triangles, r=None, r_factor=2.0, eps=1e-6) → `normaliseVerts`, `intersectingFacets`,
+                                                                                  `getIntersectingTriangles`
   TriangularMesh.check_selfintersecting: `len(get_selfintersecting_faces()) > 1`  → `selfIntersecting`
 
-Arithmetic.  `get_intersecting_triangles` starts with `vertices = vertices.astype(np.float32)`; from there on every array is
+Arithmetic.  `get_intersecting_triangles` first expresses all lengths in units of the mesh size, measured from the lower
+corner of the bounding box — `size = np.max(np.ptp(vertices, axis=0))`, `if size > 0: vertices = (vertices -
+np.min(vertices, axis=0)) / size` and `r = r / size` when a radius is given — in float64 (`normaliseVerts`, no rounding
+function), so `eps` is a fraction of the mesh size.  Then comes `vertices = vertices.astype(np.float32)`; from there on every array is
 float32 and numpy evaluates every elementwise operation (and the three-term reductions `np.sum(…, axis=1)`, `.sum(-1)`,
 `np.mean(…, axis=1)`, `np.cross`, `np.linalg.norm`) in float32, one rounding per operation.  The model therefore takes a
 rounding function `rd : α → α` and applies it after every single operation: with `α = Float` and
@@ -23,7 +28,9 @@ distances against `upper_bound = r*r`, comparison `<=`, unrounded float64 arithm
 (`withinBall`, no `rd`); the tree's bounding-box pruning is an optimisation that cannot change it except within rounding of
 the threshold.  `np.unique(pairs[sums > 0])` is the ascending list of all indices that occur in a flagged pair.
 
-`np.sign` is the four-valued code `sgn` of Model/TrimeshInside.lean (`nan != x` is True, `nan == x` is False).  A zero-area
+`np.sign` is the four-valued code `sgn` of Model/TrimeshInside.lean (`nan != x` is True, `nan == x` is False);
+`np.sign(x) >= 0` is `x >= 0` and `np.sign(x) <= 0` is `x <= 0` (both False for NaN, both True for ±0).  `s == t` on float
+arrays is IEEE equality (`a <= b and b <= a`: NaN differs from itself, −0 equals +0).  A zero-area
 facet gives `normals = nan` (0/0), `g = nan`, `np.abs(nan) > eps` False: no crossing — same in the model under `Float`.
 `eps <= 0` raises ValueError (`none`).  An empty triangle list makes `np.concatenate` raise; the model returns `[]`
 (TriangularMesh never passes one).  Triangle indices out of range raise IndexError in numpy; the model reads the zero vector
@@ -71,16 +78,33 @@ def planeCrossed (eps : α) (s0 s1 : V3 α) (t : Tri α) : Bool :=
   let g2 := planeDist rd t s1
   signNe g1 g2 && lt (rd eps) (abs g1) && lt (rd eps) (abs g2)
 
-/-- `same_volume = np.logical_and(v[0] == v[1], v[1] == v[2])` with `v[k] = np.sign(sv_k)` for (i, j) = (0,1), (1,2), (2,0) -/
+/-- `v = np.array(v); same_volume = np.all(v >= 0, axis=0) | np.all(v <= 0, axis=0)` with `v[k] = np.sign(sv_k)` for
+(i, j) = (0,1), (1,2), (2,0): a zero volume (the carrier line meets an edge or a corner of `t`) fits both signs -/
 def sameVolume (s0 s1 : V3 α) (t : Tri α) : Bool :=
   let v0 := signedVol rd s0 s1 t.1 t.2.1
   let v1 := signedVol rd s0 s1 t.2.1 t.2.2
   let v2 := signedVol rd s0 s1 t.2.2 t.1
-  signEq v0 v1 && signEq v1 v2
+  (le (n 0) v0 && le (n 0) v1 && le (n 0) v2) || (le v0 (n 0) && le v1 (n 0) && le v2 (n 0))
 
-/-- one entry of `segments_intersect_facets(segments, facets, eps)` (for `eps > 0`): segment `s0 → s1` against facet `t` -/
+end
+
+/-- `a == b` on floats -/
+def feq (a b : α) : Bool := le a b && le b a
+/-- `np.all(p == q, axis=-1)` for two points -/
+def veq (p q : V3 α) : Bool := feq p.x q.x && feq p.y q.y && feq p.z q.z
+
+/-- `touch = np.any(np.all(s[:, None] == t[None, :], axis=-1), axis=(0, 1))`: an end point of the segment IS a corner of the
+facet (same coordinates) — how the edges of a mesh facet meet its neighbours -/
+def touchesCorner (s0 s1 : V3 α) (t : Tri α) : Bool :=
+  veq s0 t.1 || veq s0 t.2.1 || veq s0 t.2.2 || veq s1 t.1 || veq s1 t.2.1 || veq s1 t.2.2
+
+section
+variable (rd : α → α)
+
+/-- one entry of `segments_intersect_facets(segments, facets, eps)` (for `eps > 0`), `cross * same_volume * ~touch`:
+segment `s0 → s1` against facet `t` -/
 def segFacet (eps : α) (s0 s1 : V3 α) (t : Tri α) : Bool :=
-  planeCrossed rd eps s0 s1 t && sameVolume rd s0 s1 t
+  planeCrossed rd eps s0 s1 t && sameVolume rd s0 s1 t && !touchesCorner s0 s1 t
 
 /-- `segments_intersect_facets`: `if eps <= 0: raise ValueError` (→ `none`), else pairwise -/
 def segmentsIntersectFacets (eps : α) (segs : List (V3 α × V3 α)) (facets : List (Tri α)) : Option (List Bool) :=
@@ -146,16 +170,31 @@ def intersectingFacets (rd : α → α) (r : Option α) (rFactor eps : α) (face
 def gatherFacets (verts : List (V3 α)) (tris : List (Nat × Nat × Nat)) : List (Tri α) :=
   tris.map fun t => (verts.getD t.1 zero3, verts.getD t.2.1 zero3, verts.getD t.2.2 zero3)
 
-/-- `get_intersecting_triangles(vertices, triangles, r, r_factor, eps)` (`r_factor ≥ 1`, `eps > 0`):
-`vertices.astype(np.float32)` is `rd` on every coordinate -/
-def getIntersectingTriangles (rd : α → α) (r : Option α) (rFactor eps : α) (verts : List (V3 α))
+/-- `get_intersecting_triangles` from the float32 cast on (`vertices.astype(np.float32)` is `rd` on every coordinate): what the
+function was before lengths were expressed in units of the mesh size, and what it still computes on the normalised input -/
+def getIntersectingTrianglesCore (rd : α → α) (r : Option α) (rFactor eps : α) (verts : List (V3 α))
     (tris : List (Nat × Nat × Nat)) : List Nat :=
   intersectingFacets rd r rFactor eps (gatherFacets (verts.map (V3.map rd)) tris)
 
+/-- `size = np.max(np.ptp(vertices, axis=0)); if size > 0: vertices = (vertices - np.min(vertices, axis=0)) / size` and
+`if r is not None: r = r / size` (float64; `size > 0` is False for NaN) -/
+def normaliseVerts (r : Option α) (verts : List (V3 α)) : Option α × List (V3 α) :=
+  let size := vertsSize verts
+  if lt (n 0) size then
+    let lo := vertsMin verts
+    (r.map (· / size), verts.map fun v => vd (v - lo) size)
+  else (r, verts)
+
+/-- `get_intersecting_triangles(vertices, triangles, r, r_factor, eps)` (`r_factor ≥ 1`, `eps > 0`) -/
+def getIntersectingTriangles (rd : α → α) (r : Option α) (rFactor eps : α) (verts : List (V3 α))
+    (tris : List (Nat × Nat × Nat)) : List Nat :=
+  let nv := normaliseVerts r verts
+  getIntersectingTrianglesCore rd nv.1 rFactor eps nv.2 tris
+
 /-- the defaults of `get_intersecting_triangles` as `TriangularMesh.get_selfintersecting_faces` calls it:
-`r=None, r_factor=1.5, eps=1e-6` -/
+`r=None, r_factor=2.0, eps=1e-6` -/
 def selfIntersectingFaces (rd : α → α) (verts : List (V3 α)) (tris : List (Nat × Nat × Nat)) : List Nat :=
-  getIntersectingTriangles rd none (n 3 / n 2) (n 1 / n 1000000) verts tris
+  getIntersectingTriangles rd none (n 2) (n 1 / n 1000000) verts tris
 
 /-- `TriangularMesh.check_selfintersecting`: `len(self.get_selfintersecting_faces()) > 1` -/
 def selfIntersecting (rd : α → α) (verts : List (V3 α)) (tris : List (Nat × Nat × Nat)) : Bool :=
